@@ -13,6 +13,9 @@ built by an independent RFC 2617 client (hashlib only) and is honest, computed
 with a wrong password, replayed from another address or to another factory,
 sent across the lifetime boundary (exactly at, one second before/after), has a
 tampered nonce or opaque, or has field-level / raw byte-level mutations.
+Honest clients also leave optional parameters out: no qop/nc/cnonce (RFC 2069
+form) and no algorithm parameter (which RFC 2617 3.2.1 defines to mean MD5,
+whatever algorithm the factory was configured to offer).
 
 Oracle (from the statement):
   valid context (unmodified response to an issued challenge, same address,
@@ -24,7 +27,11 @@ Oracle (from the statement):
                                  nonce/opaque pair for that address in its
                                  lifetime, not two different passwords, and for
                                  regular-shaped responses the response hash must
-                                 equal the independent computation);
+                                 equal the independent computation for the
+                                 algorithm and form the header DENOTES - read from
+                                 the parameters the client sent wherever the header
+                                 is unambiguous, not from the decoded object's
+                                 field table; absent algorithm = MD5);
   always                      -> decode raises nothing but LoginFailed and
                                  checkPassword raises nothing.
 The last clause has one signature per escaping exception type (see KNOWN).
@@ -54,12 +61,17 @@ COMPONENTS = {"real": ["twisted.cred.credentials.DigestCredentialFactory (getCha
 RULE = ("run = 1..3 factories at the start (md5/sha, direct or via the twisted.web wrapper, each for one of two realms - usually the same one), up to 4 with those "
         "created in mid-history; 6..24 tape-chosen steps: create another factory, issue a challenge to one of 3 addresses, "
         "advance the clock (seconds to twice the lifetime, or exactly to lifetime-1/lifetime/lifetime+1 of a chosen challenge), or answer a chosen challenge with a "
-        "response of a drawn class (honest, legacy-no-qop, wrong password, other address, other factory, nonce tamper, opaque tamper/forgery/truncation, "
+        "response of a drawn class (honest, legacy-no-qop, algorithm parameter left out (hashed with MD5 as the header then denotes, or with the challenge's algorithm), wrong password, other address, other factory, nonce tamper, opaque tamper/forgery/truncation, "
         "field drop, field value byte mutation, raw header byte mutation, algorithm/qop substitution); "
         "non-trivial = at least one accepted honest response AND at least two rejected/mutated responses")
 ASSUMPTIONS = ["times are whole seconds apart (the implementation truncates to int seconds; sub-second age is not judged)",
                "a response whose age equals the lifetime exactly is 'within' the lifetime",
                "an opaque whose base64 part differs textually but decodes (leniently) to the same bytes is not counted as altered",
+               "a response without an algorithm parameter denotes an MD5 response (RFC 2617 3.2.1): an MD5 answer without the parameter to an md5 factory's challenge "
+               "is an ordinary valid response; to a factory configured for another algorithm its acceptance is not demanded (no verdict), but whatever is accepted "
+               "must be the digest for the algorithm the header denotes, never for another one (e.g. the factory's)",
+               "what a header denotes is taken from the client's own parameter dict when every value is plain (printable ASCII, no quote/backslash/comma, blanks only "
+               "inside quoted values, unquoted values bare tokens) and the header has no raw edit; otherwise from the decoded fields as before",
                "a response repeated unchanged is accepted again (the statement does not make challenges single-use)",
                "'issued' is per factory: an unaltered answer to a challenge of one factory is not an issued challenge for any other factory of the process "
                "(same or other realm, created before or after the challenge); the random source never returns the same value twice in a history, so "
@@ -137,6 +149,14 @@ def lenient_b64(s):
         return base64.b64decode(s)
     except Exception:
         return None
+
+
+def plain(value, quoted):
+    """Does this parameter value read the same under any sensible parser?  Printable ASCII without quote, backslash or comma; not
+    empty; blanks only inside a quoted value; a value sent without quotes must be a bare token."""
+    if not value or value != value.strip() or any(b < 0x20 or b >= 0x7f or b in b'"\\,' for b in value):
+        return False
+    return quoted or all(b in b"ABCDEFGHIJKLMNOPQRSTUVWXYZabcdefghijklmnopqrstuvwxyz0123456789-" for b in value)
 
 
 def run(sim):
@@ -253,8 +273,9 @@ def _run(sim):
             return
         sim.fail(clause, excname(e), detail)
 
-    def evaluate(kind, expect, fidx, header, method, addr, used_pw, right_pw):
-        """expect: 'valid' | 'invalid' | 'free'."""
+    def evaluate(kind, expect, fidx, header, method, addr, used_pw, right_pw, sent=None):
+        """expect: 'valid' | 'invalid' | 'free'.  sent: the parameters the header denotes (the client's own dict), when the header
+        was rendered from plain values without raw edits and so denotes them unambiguously; None otherwise."""
         sim.event("respond", kind, expect, fidx, addr or "-", header)
         creds = None
         try:
@@ -289,19 +310,35 @@ def _run(sim):
             st["mutated"] += 1
             if accepted:
                 sim.probe("mutated_but_accepted")
-                f = creds.fields
+                # What the header denotes is judged from what the client SENT wherever that is unambiguous (plain values, no raw
+                # edit): a parameter the client left out is absent (RFC 2617 3.2.1: no algorithm parameter = MD5; no qop = the
+                # RFC 2069 form), whatever the decoded object's field table says by then.  Only for headers whose reading depends on
+                # the parser (quotes, commas, control bytes, raw edits) the decoded fields are used.
+                if sent is not None:
+                    f, username = sent, sent.get("username")
+                    sim.probe("acceptance_judged_by_sent_parameters")
+                else:
+                    f, username = creds.fields, creds.username
+                    sim.probe("acceptance_judged_by_decoded_fields")
                 nonce, opaque = f.get("nonce"), f.get("opaque")
-                ok = context_valid(fidx, addr, nonce, opaque) or equivalent_opaque(fidx, addr, nonce, opaque)
+                ok = nonce is not None and opaque is not None and (context_valid(fidx, addr, nonce, opaque) or equivalent_opaque(fidx, addr, nonce, opaque))
                 sim.check("accepted-is-justified", ok, "context",
                           "a mutated response was accepted although its nonce/opaque are not an issued, unexpired challenge for %s; header=%r" % (addr, header))
                 sim.check("accepted-is-justified", len(accepted) == 1, "two-passwords", "accepted for passwords %r; header=%r" % (accepted, header))
                 sim.check("accepted-is-justified", accepted == [used_pw], "other-password", "accepted for %r, the client used %r; header=%r" % (accepted, used_pw, header))
                 a = f.get("algorithm", b"md5").lower()
-                if f.get("qop") == b"auth" and f.get("nc") and f.get("cnonce") and f.get("uri") is not None and a in (b"md5", b"sha", b"md5-sess"):
-                    want = client_response(b"md5" if a == b"md5-sess" else a, creds.username, realms[fidx], accepted[0], method, f["uri"], nonce, f["nc"], f["cnonce"], b"auth",
-                                           sess=(a == b"md5-sess"))
+                want = None
+                if username and f.get("uri") is not None and a in (b"md5", b"sha", b"md5-sess"):
+                    h = b"md5" if a == b"md5-sess" else a
+                    if f.get("qop") == b"auth" and f.get("nc") and f.get("cnonce"):
+                        want = client_response(h, username, realms[fidx], accepted[0], method, f["uri"], nonce, f["nc"], f["cnonce"], b"auth", sess=(a == b"md5-sess"))
+                    elif a != b"md5-sess" and "qop" not in f and "nc" not in f and "cnonce" not in f:
+                        want = client_response(h, username, realms[fidx], accepted[0], method, f["uri"], nonce)    # RFC 2069 form
+                        sim.probe("accepted_legacy_form_judged")
+                if want is not None:
                     sim.check("accepted-is-justified", f.get("response") == want, "response-hash",
-                              "accepted although response=%r is not the RFC 2617 digest %r; header=%r" % (f.get("response"), want, header))
+                              "accepted although response=%r is not the RFC 2617 digest %r for the algorithm the header denotes (%r); header=%r"
+                              % (f.get("response"), want, a, header))
 
     def mutate_bytes(data, alphabet, label):
         """One byte-level edit (replace/insert/delete) at a tape-chosen position."""
@@ -338,7 +375,7 @@ def _run(sim):
         order = sim.draw_perm(ORDER) if sim.draw_bool(0.5, "permute") else list(ORDER)
         quote_all = sim.draw_bool(0.3, "quote_all")
         sep = sim.draw_choice([b", ", b",", b",\r\n  "], "sep")
-        tame = [("honest", 6), ("md5-sess", 2 if (algo == b"md5" and not legacy) else 0), ("wrong-password", 2), ("other-address", 2), ("expired-check", 0), ("nonce-post", 1), ("nonce-pre", 1),
+        tame = [("honest", 6), ("md5-sess", 2 if (algo == b"md5" and not legacy) else 0), ("no-algorithm", 2), ("wrong-password", 2), ("other-address", 2), ("expired-check", 0), ("nonce-post", 1), ("nonce-pre", 1),
                 ("opaque-digest", 1), ("opaque-key", 1), ("opaque-forged-time", 1), ("opaque-forged-addr", 1), ("other-factory", 2 if len(facs) > 1 else 0),
                 ("opaque-shape", 1), ("drop-tame", 1), ("value-tame", 2)]
         wild = [("opaque-truncate", 2), ("opaque-garbage", 1), ("drop-any", 2), ("value-wild", 2), ("raw-wild", 2), ("algorithm", 1), ("qop", 1), ("truncate-header", 1)]
@@ -346,13 +383,13 @@ def _run(sim):
 
         realm = c.realm      # the client answers with the realm named in the challenge it got
 
-        def build(pw, nonce, opaque, algorithm=algo):
+        def build(pw, nonce, opaque, algorithm=algo, hashed_with=algo):
             f = {"username": user, "realm": realm, "nonce": nonce, "uri": uri, "opaque": opaque, "algorithm": algorithm}
             if legacy:
-                f["response"] = client_response(algo, user, realm, pw, method, uri, nonce)
+                f["response"] = client_response(hashed_with, user, realm, pw, method, uri, nonce)
             else:
                 f["qop"], f["nc"], f["cnonce"] = b"auth", nc, cnonce
-                f["response"] = client_response(algo, user, realm, pw, method, uri, nonce, nc, cnonce, b"auth")
+                f["response"] = client_response(hashed_with, user, realm, pw, method, uri, nonce, nc, cnonce, b"auth")
             return f
 
         fidx, addr, used_pw = c.fidx, c.addr, right_pw
@@ -377,6 +414,20 @@ def _run(sim):
             fields["response"] = client_response(b"md5", user, realm, used_pw, method, uri, c.nonce, nc, cnonce, b"auth", sess=True)
             expect = "free" if fresh else "invalid"
             sim.probe("md5_sess_response")
+        elif kind == "no-algorithm":
+            # A client that leaves the optional algorithm parameter out (RFC 2069 clients always do).  RFC 2617 3.2.1: "If this is
+            # not present it is assumed to be MD5" - such a header denotes an MD5 response whatever the challenge offered.  The
+            # client really hashed with MD5 (what its header says), or with the algorithm of the challenge (and forgot to say so).
+            # MD5 answer to an MD5 challenge: an ordinary valid response.  MD5 answer to a challenge for another algorithm:
+            # acceptance is not demanded.  In no case may an acceptance rest on another hash than the one the header denotes.
+            hashed_with = sim.draw_choice([b"md5", algo], "hashed_with")
+            if sim.draw_bool(0.25, "noalg_wrong"):
+                used_pw = WRONG
+            fields = build(used_pw, c.nonce, c.opaque, hashed_with=hashed_with)
+            del fields["algorithm"]
+            if fresh and not (hashed_with == b"md5" and algo == b"md5"):
+                expect = "free"
+            sim.probe("no_algorithm_parameter_%s_response_to_%s_challenge" % (hashed_with.decode(), algo.decode()))
         elif kind == "wrong-password":
             used_pw = WRONG if sim.draw_bool(0.5, "which_wrong") else right_pw + b"x"
             fields = build(used_pw, c.nonce, c.opaque)
@@ -475,7 +526,10 @@ def _run(sim):
             expect = "free"
         if expect == "valid" and used_pw != right_pw:
             pass  # still a valid context: only the password the client used may be accepted
-        evaluate(kind, expect, fidx, header, method, addr, used_pw, right_pw)
+        sent = None
+        if kind not in ("raw-wild", "truncate-header") and all(plain(v, quote_all or k not in ("algorithm", "qop", "nc")) for k, v in fields.items()):
+            sent = dict(fields)
+        evaluate(kind, expect, fidx, header, method, addr, used_pw, right_pw, sent)
 
     for _ in range(nsteps):
         sim.step(200 * sim.depth)
@@ -537,5 +591,10 @@ MUTANTS = [
     "(before: the other-factory class was only enabled when the two factories' privateKey attributes differed, i.e. the oracle trusted the implementation's keys)",
     "credentials.py __init__: 'self.privateKey = secureRandom(12)' -> key derived from the realm (md5(authenticationRealm)): CAUGHT invalid-rejected:other-factory",
     "credentials.py __init__: authenticationRealm stored on the class (the last factory's realm wins): CAUGHT valid-accepted:honest / accepted-is-justified:response-hash",
+    "round 5: credentials.py decode: auth.setdefault('algorithm', self.algorithm) (omitted algorithm read as the factory's): CAUGHT accepted-is-justified:response-hash "
+    "(sha factory, sha-hashed response without algorithm parameter accepted; before, the oracle read the algorithm from the decoded field table, which the change itself fills in, "
+    "and no honest client left the parameter out)",
+    "credentials.py checkPassword: default algorithm b'md5' -> b'sha': CAUGHT valid-accepted:no-algorithm",
+    "credentials.py decode: credentials always built with algorithm=self.algorithm (client's parameter ignored): CAUGHT accepted-is-justified:response-hash",
     'candidate fix (catch ValueError from b64decode, UnicodeError from nativeString -> LoginFailed; checkPassword returns False for unknown algorithm / missing uri / auth-int / md5-sess without cnonce): full check PASSES without the avoid knob',
 ]
